@@ -188,8 +188,11 @@ def bisect_import(tree: ast.Module) -> None:
 #   ("ite", cond, a, b) ("match", opt, a_none, b_some)                           -- choices
 #   ("const", bool) ("bvar", name) ("opaque", src) ("isnone", opt) ("cmp", op, x, y, ty)
 #   ("not", c) ("and", cs) ("or", cs)                                            -- Bool-valued
-# The normal form (`normal`) is an ordered decision tree: every `match` on an Optional input first (by name), then the
-# Boolean inputs, then the comparisons (sorted), equal branches merged, tests already decided on the path dropped;
+# The normal form (`normal`) is an ordered decision tree: all choices are first lifted to the top (so every test is
+# if-free and visible), then re-ordered: every `match` on an Optional input first (by name), then the Boolean inputs,
+# then the comparisons (small ones first, independent of their spelling), equal branches merged, tests decided on the
+# path — directly or by trichotomy of integer comparisons — dropped, equal integers substituted, and `x < y` against
+# the canonical orientation replaced by `y < x` when both outcomes agree on `x = y` (max/min/clamps);
 # the leaves are if-free, integer sums are flattened and sorted, `>`/`≥`/`≠`/`not` are expressed with `<`/`≤`/`=`
 # (`a ≤ b` as `¬ b < a` on Int/Nat only — never on the rationals that stand for floats).  Two pieces of Python that
 # compute the same function by differently arranged tests give the same text.
@@ -397,6 +400,46 @@ def mknot(c):  # type: ignore[no-untyped-def]
     return ("not", c)
 
 
+def implied(a, env: dict):  # type: ignore[no-untyped-def]
+    """What the decisions taken on the path say about the integer comparison `a` (trichotomy), or None."""
+    if a[4] not in ("Int", "Nat") or not (if_free(a[2]) and if_free(a[3])):
+        return None
+    x, y = a[2], a[3]
+    lt, gt = env.get(("cmp", "<", x, y, a[4])), env.get(("cmp", "<", y, x, a[4]))
+    p, q = sorted((x, y), key=key_of)
+    eq = env.get(("cmp", "=", p, q, a[4]))
+    if a[1] == "<":
+        if gt is True or eq is True:
+            return False
+        if gt is False and eq is False:
+            return True
+    if a[1] == "=":
+        if lt is True or gt is True:
+            return False
+        if lt is False and gt is False:
+            return True
+    return None
+
+
+def equal_sides(a, val: bool, env: dict):  # type: ignore[no-untyped-def]
+    """(from, to) when deciding `a := val` on a path with `env` makes the two sides of `a` equal integers."""
+    if a[0] != "cmp" or a[4] not in ("Int", "Nat"):
+        return None
+    x, y = a[2], a[3]
+    if a[1] == "=" and val:
+        pass
+    elif a[1] == "<" and not val and env.get(("cmp", "<", y, x, a[4])) is False:
+        pass
+    else:
+        return None
+    if x[0] == "int":
+        return (y, x)
+    if y[0] == "int":
+        return (x, y)
+    p, q = sorted((x, y), key=key_of)
+    return (q, p)
+
+
 def simp(t, env: dict):  # type: ignore[no-untyped-def]
     k = t[0]
     if k in ("var", "int", "rat", "const"):
@@ -425,9 +468,10 @@ def simp(t, env: dict):  # type: ignore[no-untyped-def]
         c = mkcmp(t[1], simp(t[2], env), simp(t[3], env), t[4])
         neg = c[0] == "not"
         a = c[1] if neg else c
-        if a[0] == "cmp" and a in env:
-            v = env[a]
-            return TRUE if v != neg else FALSE
+        if a[0] == "cmp":
+            v = env[a] if a in env else implied(a, env)
+            if v is not None:
+                return TRUE if v != neg else FALSE
         return c
     if k == "not":
         return mknot(simp(t[1], env))
@@ -476,34 +520,90 @@ def ready_atoms(t, acc: set) -> set:  # type: ignore[no-untyped-def]
     return acc
 
 
+def first_atoms(t, acc: set) -> set:  # type: ignore[no-untyped-def]
+    """The tests a lazy evaluation of `t` meets first (conditions before branches, outermost first)."""
+    k = t[0]
+    if k == "op":
+        for a in t[3]:
+            first_atoms(a, acc)
+    elif k == "ite":
+        first_atoms(t[1], acc)
+    elif k in ("match", "isnone"):
+        acc.add(("opt", t[1]))
+    elif k in ("bvar", "opaque"):
+        acc.add(t)
+    elif k == "cmp":
+        if if_free(t[2]) and if_free(t[3]):
+            acc.add(t)
+        else:
+            first_atoms(t[2], acc)
+            first_atoms(t[3], acc)
+    elif k == "not":
+        first_atoms(t[1], acc)
+    elif k in ("and", "or"):
+        for c in t[1]:
+            first_atoms(c, acc)
+    return acc
+
+
+def size_of(t) -> int:  # type: ignore[no-untyped-def]
+    return 1 + sum(size_of(a) for a in t[3]) if t[0] == "op" else 1
+
+
 def atom_order(a):  # type: ignore[no-untyped-def]
+    """Options, then Boolean inputs, then comparisons: small ones first, independent of how they are spelled."""
     if a[0] == "opt":
         return (0, _rank(a[1]), a[1])
     if a[0] == "bvar":
         return (1, _rank(a[1]), a[1])
     if a[0] == "cmp":
-        return (2, key_of(a[2]), key_of(a[3]), a[1])
+        kx, ky = sorted([key_of(a[2]), key_of(a[3])])
+        return (2, size_of(a[2]) + size_of(a[3]), kx, ky, a[1])
     return (3, 0, a[1])
 
 
-def expand(t, env: dict, depth: int = 0):  # type: ignore[no-untyped-def]
+def replace(t, frm, to):  # type: ignore[no-untyped-def]
+    if t == frm:
+        return to
+    if isinstance(t, tuple):
+        return tuple(replace(x, frm, to) if isinstance(x, tuple) else x for x in t)
+    return t
+
+
+def expand(t, env: dict, depth: int = 0, pick=ready_atoms):  # type: ignore[no-untyped-def]
     if depth > 24:
         raise Unsupported("too many nested tests in an extracted value")
     t = simp(t, env)
-    atoms = ready_atoms(t, set())
+    atoms = pick(t, set())
     if not atoms:
         if not (if_free(t) or t[0] == "const"):
             raise Unsupported(f"cannot normalise {t[0]}")
         return t
     a = min(atoms, key=atom_order)
-    hi = expand(t, {**env, a: True}, depth + 1)
-    lo = expand(t, {**env, a: False}, depth + 1)
+
+    def side(val: bool):  # type: ignore[no-untyped-def]
+        e2 = {**env, a: val}
+        eq = equal_sides(a, val, env)
+        return expand(replace(t, *eq) if eq else t, e2, depth + 1, pick)
+
+    hi, lo = side(True), side(False)
     if a[0] == "opt":
         if hi == lo and not mentions(lo, a[1] + "_v"):
             return hi
         return ("match", a[1], hi, lo)
     if hi == lo:
         return hi
+    if pick is ready_atoms and a[0] == "cmp" and a[1] == "<" and a[4] in ("Int", "Nat") and key_of(a[2]) > key_of(a[3]):
+        # `x < y` spelled against the canonical orientation: it is `not (y < x)` except on `x = y`; when both outcomes
+        # give the same value there (max/min, clamps), test `y < x` instead — one spelling for both
+        x, y = a[2], a[3]
+        frm, to = (y, x) if x[0] == "int" else (x, y)
+        try:
+            same = expand(replace(hi, frm, to), dict(env), depth + 1, pick) == expand(replace(lo, frm, to), dict(env), depth + 1, pick)
+        except Unsupported:
+            same = False
+        if same:
+            return ("ite", ("cmp", "<", y, x, a[4]), lo, hi)
     return ("ite", a, hi, lo)
 
 
@@ -512,7 +612,8 @@ def normal(t, params: list[str]) -> str:  # type: ignore[no-untyped-def]
     global _PARAMS
     _PARAMS = list(params)
     try:
-        return render(expand(t, {}))
+        lifted = expand(t, {}, 0, first_atoms)  # every choice lifted to the top: all tests are now if-free and visible
+        return render(expand(lifted, {}))
     finally:
         _PARAMS = []
 
@@ -1606,7 +1707,7 @@ def linearise(stmts: list[ast.stmt], methods: dict, depth: int = 0) -> list[ast.
             names = [x.arg for x in a.posonlyargs + a.args][1:]
             simple = (not fn.decorator_list and all(r is tail for r in rets) and not a.vararg and not a.kwarg
                       and not a.kwonlyargs and not a.defaults and not c.keywords and len(c.args) == len(names)
-                      and not any(isinstance(x, (ast.Yield, ast.YieldFrom, ast.Starred)) for x in ast.walk(fn))
+                      and not any(isinstance(x, (ast.Yield, ast.YieldFrom)) for x in ast.walk(fn))
                       and not any(isinstance(x, ast.Starred) for x in c.args))
             if simple:
                 local = set(names) | {n.id for n in ast.walk(fn) if isinstance(n, ast.Name) and isinstance(n.ctx, ast.Store)}
